@@ -1,4 +1,5 @@
-"""C15 (buffer half) - inter-thread message buffer: no loss, no duplication, peek is a lower bound."""
+"""C15 - inter-thread message queue: the buffer half (no loss, no duplication, peek is a lower bound) and the private-heap
+half (extraction returns a minimum time stamp for every time-consistent comparator; heap macros tied by harness/hc10.c)."""
 import json
 import os
 import vlib
@@ -8,7 +9,35 @@ THEOREMS = ["RootSim.C15.invariant", "RootSim.C15.no_loss_no_dup", "RootSim.C15.
             "RootSim.C15.extract_returns_min", "RootSim.MQueue.step_inv", "RootSim.MQueue.init_inv"]
 
 
+THEOREMS_HEAP = [
+    "RootSim.C15.Heap.insert_perm", "RootSim.C15.Heap.extract_perm", "RootSim.C15.Heap.extract_eq_root",
+    "RootSim.C15.Heap.insert_timeHeap", "RootSim.C15.Heap.extract_timeHeap", "RootSim.C15.Heap.min_time_le",
+    "RootSim.C15.Heap.extract_min_time", "RootSim.C15.Heap.reach_timeHeap", "RootSim.C15.Heap.qElem_timeConsistent",
+]
+
+
+def heap_part(ctx):
+    """private-heap half: the real heap macros instantiated with q_elem_is_before (as msg_queue.c does) vs Model/Heap.lean"""
+    ok, _ = ctx.lean_build(["RootSim.Props.C15Heap"])
+    if ok:
+        ctx.axiom_audit("RootSim.Props.C15Heap", THEOREMS_HEAP)
+    if not ctx.cc("hc10", [os.path.join(vlib.HARNESS, "hc10.c")]):
+        return
+    n = 20000 if ctx.tier == "quick" else 500000
+    ops, cf, orf = ctx.path("hops"), ctx.path("hc"), ctx.path("horacle")
+    rc, out = vlib.run([ctx.path("hc10"), str(ctx.seed + 7), str(n), ops, cf, orf], timeout=3000)
+    ctx.oblige("harness-run:hc10(heap half of C15)", rc == 0, out[-500:])
+    if rc != 0:
+        ctx.violation("harness-crash", {"output": out[-800:]}, True)
+        return
+    ctx.kdiff("heap", "private heap (insert, extract, min; whole array layout; anti-flag flips while queued)", ops, cf)
+    for l in open(orf).read().splitlines()[:5]:
+        ctx.violation("heap-oracle", {"what": l.split()[1] if len(l.split()) > 1 else l, "input": l}, True)
+    ctx.coverage["heap_half"] = json.loads(out.strip().splitlines()[-1])
+
+
 def run(ctx):
+    heap_part(ctx)
     ctx.trusted += [
         "C15: sequentially consistent interleaving of the individual shared-memory accesses of msg_queue_insert / "
         "msg_queue_insert_queued (load, CAS incl. spurious failure, exchange, walk); release/acquire NOT modelled",
